@@ -147,7 +147,41 @@ def check(ctx, rep):
 
 
 def matrix_digits(ctx, rep):
-    FN = "matrix_card::fill_matrix_card_values"
+    NEW = "matrix_card::MatrixCard::new"
+    nse = ctx.wrap.run(NEW)
+    if nse is None:
+        rep.violation("fresh-source", NEW, "card digits", "function not found")
+        return
+    # the card's data: the Vec field of the MatrixCard built by `new`
+    aggs = [nse.assigns[(bi, si)][1] for bi, si, s_ in util.blocks_constructing(nse.body, "matrix_card::MatrixCard")]
+    fields = ctx.fb.adt_fields("matrix_card::MatrixCard")
+    di = [k for k, f in enumerate(fields) if "Vec<u8>" in ctx.fb.ty(f["ty"]).s]
+    data = strip(aggs[0][4][di[0]]) if len(aggs) == 1 and len(di) == 1 else None
+    size_ok = lambda t: util.is_call(strip(t), "matrix_card::MatrixCard::get_matrix_card_size") and tuple(strip(x) for x in strip(t)[2]) == (("param", 1), ("param", 2), ("param", 3))
+    die_is = lambda v: util.is_call(v, suffix="::from") and util.is_call(v[2][0], "std::ops::RangeInclusive::<Idx>::new") and tuple(x[:2] for x in v[2][0][2]) == (("int", 0), ("int", 9))
+    if data is not None and util.is_call(data, "std::iter::Iterator::collect"):
+        # Uniform::from(0..=9).sample_iter(thread_rng()).take(size).collect(): one draw per element
+        tk = strip(data[2][0])
+        good = False
+        why = "data is %s" % show(data, maxdepth=3)
+        if util.is_call(tk, "std::iter::Iterator::take") and size_ok(tk[2][1]):
+            si_ = strip(tk[2][0])
+            if util.is_call(si_, "rand::distributions::Distribution::sample_iter") and len(si_[2]) == 2:
+                die_ok = die_is(strip(si_[2][0]))
+                rng_ok = util.is_call(strip(si_[2][1]), "rand::thread_rng") or util.is_call(strip(si_[2][1]), "rand::rngs::OsRng")
+                good = die_ok and rng_ok
+                why = "data = Uniform(0..=9).sample_iter(thread_rng()).take(card size).collect()" if good else "die 0..=9: %s; rng is the thread rng: %s" % (die_ok, rng_ok)
+        rep.check(good, "fresh-source", NEW, "card digits", why, "card digits are not each drawn from Uniform(0..=9) over thread_rng(): " + why, nse.body.loc())
+        rep.ok("fresh-source", NEW, "card digits use", "the card's data is the collected sample stream itself")
+        return
+    FN = None
+    if data is not None and data[0] == "after" and util.is_call(data[1]) and data[1][1] in ctx.fb.bodies and data[2] == 0:
+        init = strip(data[3])
+        if util.is_call(init, "std::vec::from_elem") and size_ok(init[2][1]):
+            FN = data[1][1]
+    if FN is None:
+        rep.violation("fresh-source", NEW, "card digits", "the card's data is neither filled in place by a crate function nor collected from a sample stream: %s" % (show(data, maxdepth=3) if data is not None else "?"), nse.body.loc())
+        return
     se = ctx.wrap.run(FN)
     if se is None:
         rep.violation("fresh-source", FN, "card digits", "function not found")
@@ -196,11 +230,5 @@ def matrix_digits(ctx, rep):
                         good = die_ok and rng_ok
                         why = "every element := Uniform(0..=9).sample(thread_rng) (fill_with)" if good else "fill_with closure does not sample the 0..=9 die from the thread rng"
     rep.check(good, "fresh-source", FN, "card digits", why, "card digits are not each drawn from Uniform(0..=9) over thread_rng(): " + why, body.loc())
-    # MatrixCard::new fills the whole data vector
-    nse = ctx.wrap.run("matrix_card::MatrixCard::new")
-    good = False
-    if nse is not None:
-        for bb, info in nse.term_info.items():
-            if info.get("k") == "call" and info["name"] == FN:
-                good = True
-    rep.check(good, "fresh-source", "matrix_card::MatrixCard::new", "card digits use", "MatrixCard::new fills its data with fill_matrix_card_values", "MatrixCard::new does not fill the card through fill_matrix_card_values")
+    # MatrixCard::new fills the whole data vector (established above: data = after<FN(&mut vec![0; size])>)
+    rep.ok("fresh-source", "matrix_card::MatrixCard::new", "card digits use", "MatrixCard::new fills its whole data vector with %s" % FN)
